@@ -463,6 +463,8 @@ def gen_program(rng, malformed=False):
         feats.add("evidence")
         g = rng.choice(ground_goals)
         L.append(rng.choice(["evidence(%s).", "evidence(%s,false).", "evidence(\\+%s)."]) % g)
+    if any("sum_list(" in l or "member(" in l for l in L):
+        L.insert(0, ":- use_module(library(lists)).")
     seen = []
     for q in queries:
         if q not in seen:
